@@ -896,8 +896,12 @@ def replay(ck: Check, path: str) -> int:
     ck.findings = []
     if "doc" in inp:
         oracle_doc(ck, camp, inp["doc"], tuple(inp.get("target", ["v2", "contype"])), [inp["instance"]] if "instance" in inp else None)
-    for f in ck.failures:
+    # the replay judges the recorded failure: the extra case oracle_doc adds (an undeclared member: known finding D19)
+    # is reported only when it is what was recorded
+    want = data.get("classification") or {}
+    fails = [f for f in ck.failures if not want or all(f.classification.get(k) == want.get(k) for k in ("oracle", "mechanism", "cause"))]
+    for f in fails:
         print("REPLAY-FAILS:", json.dumps(f.classification), f.observed[:300])
-    if not ck.failures:
+    if not fails:
         print("replay: the oracle does not fail on this input")
-    return 1 if ck.failures else 0
+    return 1 if fails else 0
